@@ -121,6 +121,39 @@ def delFixP (S : α) : List Dir → Tree α → Tree α × List Dir
 def rbDelFix (S : α) (rp : List Dir) (t : Tree α) : Tree α :=
   atPath (setCol false) (delFixP S rp t).2.reverse (delFixP S rp t).1
 
+/-- `x == NIL` -/
+def isNil : Tree α → Bool
+  | .nil => true
+  | .node _ _ _ _ _ => false
+
+/-- the leftmost node of `.node l _ _ c r` below the path `acc`: its path (innermost step first), whether it is red,
+    whether its right child is NIL -/
+def minInfo : Tree α → Bool → Tree α → List Dir → List Dir × Bool × Bool
+  | .nil, c, r, acc => (acc, c, isNil r)
+  | .node a _ _ ac ar, _, _, acc => minInfo a ac ar (.L :: acc)
+
+/-- the node `y` that `_delete_from_tree` splices out for the key `k` (the node with the key, or its in-order
+    successor when it has two children): its path (innermost step first), whether it is red, whether its only
+    child `x` is NIL; `none` = the key is absent -/
+def spliceInfo (k : α) : Tree α → List Dir → Option (List Dir × Bool × Bool)
+  | .nil, _ => none
+  | .node l n _ c r, acc =>
+    if k < n.key then spliceInfo k l (.L :: acc)
+    else if n.key < k then spliceInfo k r (.R :: acc)
+    else
+      match l, r with
+      | .nil, r => some (acc, c, isNil r)
+      | .node _ _ _ _ _, .nil => some (acc, c, false)
+      | .node _ _ _ _ _, .node rl _ _ mc rr => some (minInfo rl mc rr (.R :: acc))
+
+/-- **`_delete_from_tree` complete**: the splice / successor copy with the code's augmentation repairs (`delCore`),
+    then -- when a black node was spliced out and its child `x` is not NIL -- the colour fix-up started at `x`
+    (which has taken `y`'s place) -/
+def rbDelete (S k : α) (t : Tree α) : Option (Tree α) :=
+  match spliceInfo k t [] with
+  | none => none
+  | some (rp, yred, xnil) => (delCore S k t).map fun t1 => if !yred && !xnil then rbDelFix S rp t1 else t1
+
 end
 
 end XrsVerif.Viewshed
